@@ -361,13 +361,12 @@ def workbook_stream(sheets: list[dict], *, filepass_at: int | None = None, date_
     head += [_xf(0, True, first=(i == 0)) for i in range(15)]
     head += [_xf(0, False), _xf(FMT_DATE, False), _xf(FMT_DATETIME, False), _xf(FMT_TIME, False)]
     head.append(_rec(STYLE, struct.pack("<HBB", 0x8000, 0, 0xFF)))
-    n_before_sheets = len(head)
     if filepass_at is not None:
+        # index among the records that follow BOF: head..., BOUNDSHEET..., SST(+CONTINUE, EXTSST), EOF
         if not 0 <= filepass_at <= len(head) + len(sheets) + 1:
             raise ValueError("filepass_at out of range")
-    bound_sizes = [len(_boundsheet(0, sh["name"])) for sh in sheets]
 
-    def assemble(sheet_offsets: list[int], sst_offset: int) -> tuple[bytes, int]:
+    def assemble(sheet_offsets: list[int]) -> bytes:
         recs = list(head)
         recs += [_boundsheet(o, sh["name"]) for o, sh in zip(sheet_offsets, sheets)]
         sst_index = len(recs)
@@ -379,16 +378,16 @@ def workbook_stream(sheets: list[dict], *, filepass_at: int | None = None, date_
         bof = _bof(0x0005)
         before = len(bof) + sum(len(r) for r in recs[:sst_index])
         recs[sst_index] = sst.records(before)
-        return bof + b"".join(recs) + _rec(EOF), before
+        return bof + b"".join(recs) + _rec(EOF)
 
-    draft, _ = assemble([0] * len(sheets), 0)
+    draft = assemble([0] * len(sheets))
     offsets = []
     pos = len(draft)
     for s in sizes:
         offsets.append(pos)
         pos += s
-    globals_bytes, _ = assemble(offsets, 0)
-    assert len(globals_bytes) == len(draft) and n_before_sheets and bound_sizes
+    globals_bytes = assemble(offsets)
+    assert len(globals_bytes) == len(draft)
     out = bytearray(globals_bytes)
     sst2 = _SST()
     sst2.index, sst2.strings = dict(sst.index), list(sst.strings)     # same indexes; totals irrelevant now
